@@ -31,6 +31,34 @@ milliseconds and is attributed to the case (and the public call, `@@C20 STEP` ma
 happened in.  In plain mode every case ends with flush_heap(), which pushes numpy's privately cached
 blocks through free() so that glibc reports a damaged malloc header inside the guilty case.
 
+Size ladders and histories (both modes, section "size ladders and call histories" below): every public entry point
+that reaches a raw-pointer C routine - RainfallClimateNetwork.spearman_corr / constructor, MutualInfoClimateNetwork
+constructor / calculate_similarity_measure / mutual_information / set_winter_only, Surrogates.test_pearson_correlation /
+test_mutual_information / test_threshold_significance (+ original_distribution), ResNetwork.vertex_ / edge_current_flow_
+betweenness - and CouplingAnalysis.cross_correlation / get_nearest_neighbors / mutual_information[knn] (+ information_
+transfer[knn]) is driven
+  (1) with one size parameter (time steps, nodes, bins, realizations, histogram bins, lags, neighbours) on the ladder
+      1,2,3,7,8,9,31,32,33,255,256,257,1023,1024,1025,2047,2048,2049,4095,4096,4097,8191,8193 (capped where the output is
+      quadratic: <= 2049 nodes / bins, <= 1025 nodes for network constructors and O(N^3) kernels, <= 257 for the O(N^4)
+      edge betweenness; quick tier: lower caps, 2047/2048/8191 dropped on some ladders, 1023..1025 and 4095..4097 always
+      kept for time steps) while the other dimensions stay at 2-3, and
+  (2) through histories of 2-7 calls in ONE interpreter with growing, shrinking, equal and zigzag sizes, on the same
+      object where the API allows it (one network object for spearman_corr / calculate_similarity_measure /
+      mutual_information, set_winter_only toggles on one MutualInfoClimateNetwork, update_resistances on one ResNetwork,
+      one CouplingAnalysis / Surrogates object) and on fresh objects sharing the module state.
+Each such case starts in a fresh fork of the supervisor (pyunicorn imported, nothing called), every result is compared
+with a NumPy reference of the documented estimator (specs/c20_sizes.py; float32 kernels rtol 1e-5..2e-4, current flow
+rtol 1e-3, nearest-neighbour counts exact, knn MI atol 2e-3; shape / finite only for information_transfer[knn] and
+original_distribution), the malloc free lists are sprayed before and flushed after every step.  Checks:
+`<entry>/size-ladder-crash`, `<entry>/history-crash` (child died: signal / glibc abort; witness = all sizes of the case),
+`<entry>/size-ladder-value`, `<entry>/history-value` (result differs from the reference); sanitizer mode: `<entry>/asan`.
+A step that ends in a Python exception is an allowed rejection; a watchdog timeout is reported under `skipped`.
+Sensitivity of this part: seeded C20-c (fixed stack scratch in _spearman_corr, wrong switch-over) 40 failures, C20-d
+(mutual_information work arrays cached without the record length) 29; own edits: `double row[1024]` used for n_time < 4096
+in _test_pearson_correlation_fast (caught from 2047 samples on; 1025 stays inside the frame and is invisible without
+ASan), histograms of _test_mutual_information cached per N (stale n_bins), `float Ri[128]` used for N <= 256 in
+_vertex_current_flow_betweenness_fast (caught at 255/256) - all reported.
+
 Check names: `<Class.method>/asan` (sanitizer mode), `<Class.method>/crash`, `<Class.method>/foreign-memory`
 (plain mode).  Two case families have a label of their own because they fail on the tree at the time of
 writing (genuine C20 violations, reported, not papered over):
@@ -89,7 +117,7 @@ SAN = "asan" in os.environ.get("LD_PRELOAD", "")
 WORKERS = 8
 BATCH = 24
 CASE_LIMIT_S = 60 if SAN else 15        # per-case watchdog inside the child
-SIZED_LIMIT_S = 240 if SAN else 40      # ... for the size-ladder / history cases
+SIZED_LIMIT_S = 240 if SAN else 40      # ... for the size-ladder / history cases (thorough tier: x4)
 SAN_WORDS = ("AddressSanitizer", "runtime error:", "UndefinedBehaviorSanitizer", "LeakSanitizer")
 
 ENTRIES = {}        # entry name -> (driver, generator)
@@ -339,7 +367,7 @@ def worker(cases, start, real_out, prog_fd):
             return                                  # sized cases start in a fresh fork of the supervisor
         os.write(prog_fd, b"B %d\n" % i)
         mark("BEGIN " + case["name"])
-        signal.alarm(SIZED_LIMIT_S if case.get("kind") else CASE_LIMIT_S)
+        signal.alarm(int(case.get("limit", SIZED_LIMIT_S)) if case.get("kind") else CASE_LIMIT_S)
         t0 = time.time()
         try:
             rec = child_case(case)
@@ -471,7 +499,7 @@ def spawn(cases, extra_env=None):
                 "PYTHONHASHSEED": "0"})
     limit = 120 + CASE_LIMIT_S + (8 if SAN else 2) * len(cases)
     if any(c.get("kind") for c in cases):
-        limit = 120 + SIZED_LIMIT_S + (40 if SAN else 10) * len(cases)
+        limit = 120 + max(c.get("limit", SIZED_LIMIT_S) for c in cases) + (40 if SAN else 10) * len(cases)
     t0 = time.time()
     try:
         pr = subprocess.run([sys.executable, os.path.abspath(__file__), "--cases-file", path],
@@ -580,9 +608,18 @@ def parent_main(args, only=None):
                  "Failure = exit 77 / signal / sanitizer report of the child." if SAN else
                  "Failure = child crash, or result differing between +1e30 and -1e30 poisoned surroundings "
                  "(ints exact, floats rtol 1e-5 atol 1e-6, reproduced twice)."))
+    scope += (" PLUS size ladders and call histories for the %d entry points that reach raw-pointer C routines or "
+              "CouplingAnalysis kernels: one size parameter in {1,2,3,7,8,9,31,32,33,255,256,257,1023,1024,1025,2047,2048,"
+              "2049,4095,4096,4097,8191,8193} (capped for quadratic outputs / O(N^3+) kernels, see docstring), other "
+              "dimensions 2-3; histories of 2-7 calls with growing/shrinking/equal sizes in one interpreter on the same "
+              "and on fresh objects; each case in a fresh forked interpreter, results compared with NumPy references "
+              "(float32 kernels rtol 1e-5..2e-4, current flow 1e-3, neighbour counts exact); failure = child death or "
+              "reference mismatch." % len(SIZED))
     rule = ("cases are generated per entry point from the seed (np.random.RandomState); a case is a (entry point, "
             "shape/dtype/argument) tuple, distinct by its name; it counts as non-trivial when at least one public "
-            "call of it returned a value (was not rejected by a Python exception). evaluations = public calls made.")
+            "call of it returned a value (was not rejected by a Python exception). evaluations = public calls made. "
+            "A ladder / history case is an (entry point, sequence of sizes) tuple with seeded continuous (tie-free) data; "
+            "it counts as non-trivial when at least one result of it was compared with the reference.")
     rep = Report(PROP, args, scope, rule)
     if SAN and not inst:
         rep.skip("LD_PRELOAD has the ASan runtime but the pyunicorn extensions on PYTHONPATH are not instrumented")
@@ -625,7 +662,7 @@ def parent_main(args, only=None):
             if r.get("timeout"):
                 rep.case(None, nontrivial=False)
                 rep.skip("timeout (>%ds, hang; not a memory violation) in %s at %s" % (
-                    SIZED_LIMIT_S if kind else CASE_LIMIT_S, r["name"], r.get("step")))
+                    c.get("limit", SIZED_LIMIT_S) if kind else CASE_LIMIT_S, r["name"], r.get("step")))
                 continue
             if "died" in r and kind:
                 rep.case(None, nontrivial=False)
@@ -1713,7 +1750,7 @@ def hist_sizes(tier, rng, key, small, large, base, n_random=0):
     zz = [small[0], large[0], small[-1], large[-1], small[0], large[0], large[0]]
     out.append(("zigzag", [dict(base, **{key: v}) for v in zz]))
     pool = [v for v in LADDER if min(small) <= v <= max(large)]
-    for _ in range(n_random if tier == "thorough" else 0):
+    for _ in range(3 * n_random if tier == "thorough" else 0):
         seq = [int(rng.choice(pool)) for _ in range(5)]
         out.append(("random", [dict(base, **{key: v}) for v in seq]))
     return out
@@ -2297,7 +2334,7 @@ def _s_gnn(sz, rng, st, chk):
 
 
 def _l_knn(tier):
-    for T in lad(tier=tier, lo=31, cap=4097, thin=True):
+    for T in lad(tier=tier, lo=31, cap=8193 if tier == "thorough" else 4097, thin=True):
         yield {"T": T, "N": 2, "tau": 0, "knn": 4}
     for T in lad(tier=tier, lo=31, cap=1025):
         yield {"T": T, "N": 2, "tau": 1, "knn": 3}
@@ -2343,7 +2380,9 @@ def _s_knn(sz, rng, st, chk):
                 chk.value(lab, got[i, j, t], want, 1e-3, 2e-3, "MI(%d,%d,lag %d)" % (i, j, t))
         gm = chk.call(lab, ca.mutual_information, tau_max=tau, estimator="knn", knn=knn, lag_mode="max")
         if gm is not FAILED and chk.shape(lab, gm[0], (N, N), np.float32) and chk.shape(lab, gm[1], (N, N), np.int8):
-            chk.value(lab, gm[0], np.maximum(got.max(axis=2), 0), 1e-3, 2e-3, "maximum over lags")
+            # i == j: identical coordinates, the estimate rests on the wrapper's random tie-breaking noise
+            off = ~np.eye(N, dtype=bool)
+            chk.value(lab, gm[0][off], np.maximum(got.max(axis=2), 0)[off], 1e-3, 2e-3, "maximum over lags")
     if T - tau - 1 > 2 * knn and T <= 1100:
         lab = "CouplingAnalysis.information_transfer[knn]"
         for cm in ("ity", "mit"):
@@ -2379,11 +2418,14 @@ def build_sized_cases(tier, seed):
             if nm in seen:
                 return
             seen.add(nm)
-            cases.append({"name": nm, "entry": name, "kind": kind,
+            cases.append({"name": nm, "entry": name, "kind": kind, "limit": SIZED_LIMIT_S * (4 if tier == "thorough" else 1),
                           "params": {"steps": steps, "ds": int(rng.randint(0, 2 ** 31 - 1))}})
         for sz in lgen(tier):
             steps = sz if isinstance(sz, list) else [sz]
-            add("ladder", ";".join(",".join("%s=%s" % (k, json.dumps(s[k])) for k in sorted(s)) for s in steps), steps)
+            lab = ";".join(",".join("%s=%s" % (k, json.dumps(s[k])) for k in sorted(s)) for s in steps)
+            add("ladder", lab, steps)
+            if tier == "thorough" and sized_cost({"entry": name, "params": {"steps": steps}}) < 50:
+                add("ladder", lab + "#2", steps)            # a second draw of the data
         for hk, steps in hgen(tier, rng):
             add("history", hk + ":" + ";".join(",".join("%s=%s" % (k, json.dumps(s[k])) for k in sorted(s))
                                               for s in steps), steps)
@@ -2420,7 +2462,7 @@ def main():
         only = [{"name": w.get("case") or case_name(w["entry"], w["params"]), "entry": w["entry"],
                  "params": w["params"]}]
         if w.get("kind"):
-            only[0]["kind"] = w["kind"]
+            only[0].update(kind=w["kind"], limit=4 * SIZED_LIMIT_S)
     if own.only and only is None:
         only = [c for c in build_cases(args.tier, args.seed) + build_sized_cases(args.tier, args.seed)
                 if own.only in c["entry"] or own.only in c["name"]]
